@@ -51,14 +51,12 @@ pub(super) fn contiguous_meta_address_to_address(
     } else {
         relative_meta_addr >> (-shift)
     };
-    let data_addr_bit_shift = if shift >= 0 {
-        metadata_spec.log_bytes_in_region - metadata_spec.log_num_of_bits
-    } else {
-        metadata_spec.log_bytes_in_region
-    };
+    // `bit` is aligned to the start of a metadata value: `bit >> log_num_of_bits` is the index of
+    // the region among the regions that share this metadata byte (always 0 if `shift < 0`).
+    let region_index_in_byte = (bit as usize) >> metadata_spec.log_num_of_bits;
 
     let data_addr = (data_addr_intermediate << metadata_spec.log_bytes_in_region)
-        + ((bit as usize) << data_addr_bit_shift);
+        + (region_index_in_byte << metadata_spec.log_bytes_in_region);
 
     unsafe { Address::from_usize(data_addr) }
 }
